@@ -4,6 +4,7 @@
 
 use h_common::{tool_error, Args};
 
+mod chain;
 mod commit;
 mod conc;
 mod validate;
@@ -16,6 +17,7 @@ fn main() {
     match (mode.as_str(), model.as_str()) {
         ("replay", "commit") => commit::replay(&args),
         ("replay", "validate") => validate::replay(&args),
+        ("replay", "chain") => chain::replay(&args),
         _ => tool_error(&format!("unknown mode/model {mode}/{model}")),
     }
 }
